@@ -95,6 +95,22 @@ pub fn programs(big: bool) -> Vec<(String, String)> {
             format!("functie f() {{ {}; {{ stel x = 7 }} }}; functie g() {{ {}; {{ 5; stel y = l0 }} }}; [f(), g(), 1]", join(n - 1, "; ", |j| format!("stel l{} = {}", j, j)), join(n - 1, "; ", |j| format!("stel l{} = {}", j, j))),
         ));
     }
+    // array literals nested in tail position: the elements in front of the inner literal are all pending on the operand
+    // stack while it is built — LEVELS x N values in one frame, far more than any call allows (no documented limit
+    // applies: each literal stays below 65 536 elements)
+    for &(levels, n) in &[(2usize, 40_000usize), (2, 65_535), (3, 50_000), (4, 50_000), (4, 65_535), (8, 65_000)] {
+        if !big && levels * n > 210_000 {
+            continue;
+        }
+        let mut lit = "[7]".to_string();
+        for _ in 0..levels {
+            lit = format!("[{}{}]", "1, ".repeat(n - 1), lit);
+        }
+        v.push((
+            format!("pending-operands-{}-levels-{}", levels, levels * n),
+            format!("stel t = {}; stel d = t; {}[lengte(t), lengte(d), d[0], t[0]]", lit, format!("d = d[{}]; ", n - 1).repeat(levels)),
+        ));
+    }
     // a small construct behind K statements of 4 bytes each, K sweeping over the window in which the construct's jumps
     // and the return address of its call straddle code offset 65 536 (jump operands are 16 bits wide): the value, or
     // the syntax error of the documented limit — nothing else
@@ -126,6 +142,9 @@ pub fn may_hit_limit(name: &str) -> bool {
     let n = size_of(name);
     if name.starts_with("code-offset-") {
         return true;
+    }
+    if name.starts_with("pending-operands-") {
+        return false;
     }
     if name.starts_with("tail-block-declaration-") {
         // two bodies of N declarations, about 7 bytes each, jumped over by the function definitions
